@@ -212,6 +212,8 @@ pub fn run_world_a(plan: &Rc<Plan>) -> Result<History, String> {
     let ended = Rc::new(std::cell::Cell::new(false));
     let after_fin = Rc::new(std::cell::Cell::new(0usize));
 
+    let consumer_busy = Rc::new(std::cell::Cell::new(false));
+    let consumer_busy_obs = Rc::clone(&consumer_busy);
     let root = {
         let events = Rc::clone(&events);
         let event_poll = Rc::clone(&event_poll);
@@ -234,6 +236,24 @@ pub fn run_world_a(plan: &Rc<Plan>) -> Result<History, String> {
                 events.borrow_mut().push(ev);
                 event_poll.borrow_mut().push(core2.stats.borrow().root_polls);
                 drop(item);
+                // slow consumer: the runner is not polled while the consumer is busy
+                let pm = core2.knobs.consumer_pm;
+                if pm > 0 {
+                    let stall = {
+                        let mut r = core2.rng.borrow_mut();
+                        r.chance(u64::from(pm), 1000).then(|| if r.chance(1, 2) { 0 } else { r.log_dur(10_000_000) })
+                    };
+                    if let Some(d) = stall {
+                        core2.stats.borrow_mut().consumer_stalls += 1;
+                        consumer_busy.set(true);
+                        if d == 0 {
+                            core2.yield_now().await;
+                        } else {
+                            core2.sleep(d, core::LABEL_WRITER).await;
+                        }
+                        consumer_busy.set(false);
+                    }
+                }
             }
             ended.set(true);
         })
@@ -246,7 +266,8 @@ pub fn run_world_a(plan: &Rc<Plan>) -> Result<History, String> {
         let ctx2 = Rc::clone(&ctx);
         let core2 = Rc::clone(&core);
         core::run_root(&core, root, &mut |info| {
-            if info.quiescent {
+            // while the consumer stalls, the runner may still have undelivered work: not quiescent
+            if info.quiescent && !consumer_busy_obs.get() {
                 let pl = plog.borrow();
                 quiescent.push(Quiescent {
                     events: events.borrow().len(),
